@@ -1,6 +1,8 @@
 //! `vh` - conformance harness binding the TLA+ specifications in /verif/spec to the
 //! real code of nerdsane/redis-rust (path dependency on /repo, feature `verif-hooks`).
 mod crdt;
+mod recov;
+mod stream;
 mod util;
 mod wal;
 mod walfmt;
@@ -19,6 +21,8 @@ fn main() {
         }
         "crdt" => crdt::main(rest),
         "wal" => wal::main(rest),
+        "stream" => stream::main(rest),
+        "recov" => recov::main(rest),
         m => {
             eprintln!("unknown module {m}");
             2
